@@ -13,6 +13,7 @@ type XItem struct {
 	Q    string `json:"q"`
 	V    int    `json:"v"`
 	WS   string `json:"ws"`
+	C    string `json:"c"` // content class of a text value: "" / "plain" | "oq" (holds the other quote character)
 }
 
 var xmpNS = map[string]string{
@@ -85,6 +86,15 @@ func xmpFixed(p string, rng *rand.Rand) (text string, want interface{}) {
 		return fmt.Sprintf("%.2f", v), v
 	case "xmp:CreateDate", "xmp:ModifyDate", "xmp:MetadataDate", "exif:DateTimeOriginal":
 		y, mo, d, h, mi, s := 1990+rng.Intn(60), 1+rng.Intn(12), 1+rng.Intn(28), rng.Intn(24), rng.Intn(60), rng.Intn(60)
+		// XMP date: seconds with a fraction of 0, 1, 2, 3 or 6 digits, and no zone designator, Z, or +hh:mm / -hh:mm
+		fd := []int{0, 1, 2, 3, 6}[rng.Intn(5)]
+		frac, nanos := "", 0
+		if fd > 0 {
+			v := rng.Intn(pow10(fd))
+			frac = fmt.Sprintf(".%0*d", fd, v)
+			nanos = v * pow10(9-fd)
+		}
+		zone, off := "", 0
 		switch rng.Intn(3) {
 		case 0:
 			zh, zm := rng.Intn(13), []int{0, 30, 45}[rng.Intn(3)]
@@ -92,13 +102,12 @@ func xmpFixed(p string, rng *rand.Rand) (text string, want interface{}) {
 			if rng.Intn(2) == 0 {
 				sign, sc = -1, "-"
 			}
-			return fmt.Sprintf("%04d-%02d-%02dT%02d:%02d:%02d%s%02d:%02d", y, mo, d, h, mi, s, sc, zh, zm),
-				fmt.Sprintf("%04d-%02d-%02dT%02d:%02d:%02d.00|%d", y, mo, d, h, mi, s, sign*(zh*3600+zm*60))
+			zone, off = fmt.Sprintf("%s%02d:%02d", sc, zh, zm), sign*(zh*3600+zm*60)
 		case 1:
-			cs := rng.Intn(100)
-			return fmt.Sprintf("%04d-%02d-%02dT%02d:%02d:%02d.%02d", y, mo, d, h, mi, s, cs), fmt.Sprintf("%04d-%02d-%02dT%02d:%02d:%02d.%02d|0", y, mo, d, h, mi, s, cs)
+			zone = "Z"
 		}
-		return fmt.Sprintf("%04d-%02d-%02dT%02d:%02d:%02d", y, mo, d, h, mi, s), fmt.Sprintf("%04d-%02d-%02dT%02d:%02d:%02d.00|0", y, mo, d, h, mi, s)
+		return fmt.Sprintf("%04d-%02d-%02dT%02d:%02d:%02d%s%s", y, mo, d, h, mi, s, frac, zone),
+			fmt.Sprintf("%04d-%02d-%02dT%02d:%02d:%02d.%09d|%d", y, mo, d, h, mi, s, nanos, off)
 	case "xmpMM:DocumentID", "xmpMM:InstanceID", "xmpMM:OriginalDocumentID":
 		u := make([]byte, 16)
 		rng.Read(u)
@@ -113,6 +122,14 @@ func xmpFixed(p string, rng *rand.Rand) (text string, want interface{}) {
 		return "xmp.iid:" + canon, h
 	}
 	return "1", float64(1)
+}
+
+func pow10(n int) int {
+	p := 1
+	for i := 0; i < n; i++ {
+		p *= 10
+	}
+	return p
 }
 
 // XMPPacket is a concretised packet with the record a correct parser reports.
@@ -174,6 +191,19 @@ func BuildXMP(items []XItem, rng *rand.Rand, junk int, arrays bool) XMPPacket {
 			return t
 		}
 		t := xmpText(rng, it.V)
+		if it.C == "oq" && it.V >= 3 {
+			// the quote character that does not delimit this value (both of them in an element)
+			b := []byte(t)
+			other := byte('\'')
+			if it.Form == "attr" && it.Q == "sq" {
+				other = '"'
+			}
+			b[1+rng.Intn(len(b)-2)] = other
+			if it.Form != "attr" && len(b) >= 5 {
+				b[len(b)-2] = '"'
+			}
+			t = string(b)
+		}
 		exp[it.P] = t
 		return t
 	}
